@@ -223,6 +223,26 @@ def run(w: World, rep: Report):
                       file=RELP, why='' if ok else 'recursive call on something other than bytes read from this tape')
         # R5 / R6 formatters
         _formatters(w, rep, cfg, kinds, armtag, names, arm_body, reads, tape_var, comp_domains, fi.name)
+        # R6 (payload lengths): a length-prefixed operand is listed for every length the prefix can hold; the
+        # compiler helper that re-reads the listing must accept that whole range
+        if any(tok.startswith('n[u') for tok in shape):
+            from .rules_c11 import helper_prefix_bounds
+            for nm in names:
+                cd = comp_domains.get(nm)
+                if not cd or not cd.get('helper'):
+                    continue
+                try:
+                    bounds = helper_prefix_bounds(w, cd['helper'])
+                except AnalysisError:
+                    continue
+                short = [(wd, mx) for wd, mx in bounds if mx is not None and mx < 256 ** wd - 1]
+                rep.check('C12.R6', f'parsing.decompile_script|case|{nm}|payload-length-domain', not short,
+                          line=case.pattern.lineno, file=RELP,
+                          why='' if not short else
+                          f'{nm}: the listing can carry a payload of up to {256 ** short[0][0] - 1} bytes (the VM and the '
+                          f'shorthand PUSH produce it) but the compiler helper {cd["helper"]} rejects lengths above '
+                          f'{short[0][1]}: such a listing does not recompile',
+                          facts={'bounds': bounds[:6]})
         # R5b: the listing of an arm is emitted on every path
         _emission(w, rep, armtag, names, arm_body)
     missing = sorted(set(vm_shapes) - seen_ops)
